@@ -10,6 +10,7 @@ import (
 	"verif/core"
 	"verif/gen"
 	"verif/given"
+	"verif/obs"
 	"verif/refmodel"
 )
 
@@ -118,13 +119,17 @@ func pickBase(r *rand.Rand) (string, bool) {
 var interferenceParsers = []url.Parser{
 	url.NewParser(url.WithLaxHostParsing()),
 	url.NewParser(url.WithLaxHostParsing(), url.WithAcceptInvalidCodepoints(), url.WithPercentEncodeSinglePercentSign(), url.WithCollapseConsecutiveSlashes()),
-	url.NewParser(url.WithSpecialSchemes(map[string]string{"foo": "1", "http": "80", "file": ""})),
+	url.NewParser(url.WithSpecialSchemes(map[string]string{"foo": "1", "http": "8080", "gopher": "7070", "file": ""})),
 }
 
 func interfere(ctx *core.Ctx, inputs ...string) {
 	for _, p := range interferenceParsers {
 		for _, in := range inputs {
-			_ = ctx.Call(len(in)+64, func() { _, _ = p.Parse(in) })
+			_ = ctx.Call(len(in)+64, func() {
+				if u, err := p.Parse(in); err == nil && u != nil {
+					_ = obs.Take(u) // getters too: caches may be filled on first read
+				}
+			})
 		}
 	}
 	ctx.Count("interference_passes")
